@@ -99,11 +99,21 @@ def generate(src):
     def h_isinstance(ex, st, e, recv, args, kw, k, K):
         a = Val.a(to_val(args[0])); cname = ast.unparse(e.args[1]); return k(st, PyBool(CLS.sub_expr(st.heap.cls_of[a], cname)))
     FALSE_ARR = K(IntSort(), False)
-    def h_set(ex, st, e, recv, args, kw, k, K): setG(st, reloaded=FALSE_ARR, replaced=FALSE_ARR); return k(st, 'SET:reloaded')
+    def h_set(ex, st, e, recv, args, kw, k, K): setG(st, reloaded=FALSE_ARR); return k(st, 'SET:reloaded')          # a fresh, empty per-tick de-duplication set (program state)
     def h_set_add(ex, st, e, recv, args, kw, k, K):
         i = ex.as_int(args[0]); setG(st, reloaded=Store(st.ghost['reloaded'], i, True)); return k(st, None)
     def h_len(ex, st, e, recv, args, kw, k, K): return k(st, PyInt(st.heap.llen[args[0].addr]))
+    # dataclass fields of ReloadOneAction (order and defaults) are read from the class body in the AST
+    R1_CLS = next(n for n in src.tree(REL).body if isinstance(n, ast.ClassDef) and n.name == 'ReloadOneAction')
+    R1_FIELDS = [(s_.target.id, s_.value) for s_ in R1_CLS.body if isinstance(s_, ast.AnnAssign) and isinstance(s_.target, ast.Name)]
     def h_ReloadOneAction(ex, st, e, recv, args, kw, k, K):
+        kw = dict(kw)
+        for (fname, default), val in zip(R1_FIELDS, args): kw.setdefault(fname, val)
+        for fname, default in R1_FIELDS:
+            if fname not in kw:
+                if default is None or not isinstance(default, ast.Constant): raise Unsupported(f"ReloadOneAction(...) without {fname} and no constant default")
+                kw[fname] = default.value
+        if set(kw) != {'worker_num', 'is_reload_all'}: raise Unsupported("ReloadOneAction fields changed: " + ", ".join(sorted(kw)))
         st.heap = st.heap.copy(); a = fresh('act', IntSort()); h = st.heap
         st.pc.append(h.cls_of[a] == RONE); st.facts.append(ForAll([p], Implies(p < st.ghost['tail'], st.ghost['hist'][p] != a)))      # freshly allocated
         h.fld['worker_num'] = Store(h.field('worker_num'), a, to_val(kw['worker_num'])); h.fld['is_reload_all'] = Store(h.field('is_reload_all'), a, to_val(kw['is_reload_all']))
@@ -152,7 +162,7 @@ def generate(src):
     def h_event(ex, st, e, recv, args, kw, k, K): return k(st, fresh('event'))
     def h_sleep(ex, st, e, recv, args, kw, k, K):
         # during the sleep any worker may die (environment)
-        g = st.ghost; na = fresh('alive', I2B); st.facts.append(ForAll([p], Implies(na[p], g['alive'][p]))); setG(st, alive=na); env_signals(st); return k(st, None)
+        g = st.ghost; na = fresh('alive', I2B); st.facts.append(ForAll([p], Implies(na[p], g['alive'][p]))); setG(st, alive=na, replaced=FALSE_ARR); env_signals(st); return k(st, None)          # a new supervision tick starts: nothing has been replaced in it yet (ghost)
     def inline(ex, st, fdef, self_val, args, kwargs, k, K, extra_env=None):
         params = [a.arg for a in fdef.args.args]; env = {params[0]: self_val}
         for pn, v in zip(params[1:], args): env[pn] = v
@@ -194,7 +204,7 @@ def generate(src):
     CONJ_TEXT = {'budget': "restarts == number of handled unexpected worker exits, and it is below max_fails while the loop runs", 'nslots': "the number of worker slots never changes",
                  'one_live': "every started, un-joined process is the current process of its slot (never two live processes per slot)", 'slots_started': "every slot holds a started process registered for that slot",
                  'handled': "every in-range ReloadOne dequeued in this drain has had its slot replaced", 'reloaded_sub': "slots marked reloaded this tick have been replaced this tick", 'replaced_sub': "slots replaced this tick are marked, so they are not restarted again in the same tick",
-                 'pending_for_dead': "every worker found dead by the scan has a ReloadOne for its slot pending in the queue", 'killed': "shutdown signalling", 'queue': "queue view well-formed",
+                 'pending_for_dead': "every worker found dead by the scan has a ReloadOne for its slot pending in the queue", 'killed': "shutdown signalling", 'appended': "reload-all enqueues ReloadOne(i, is_reload_all=True) for every slot in order (such restarts never consume the failure budget)", 'tail': "reload-all appends exactly one action per slot", 'prefix': "already queued actions are not rewritten", 'queue': "queue view well-formed",
                  'reaped_dead': "a reaped process is dead", 'pids': "current workers have a pid", 'workers_field': "self.workers is the same list"}
     def check(st, inv, label):
         tag = label if '[' in label else None
@@ -279,6 +289,7 @@ def generate(src):
         return d
     st = init_state(""); base_heap(st); st.env = {'self': PyObj(self_a, 'pm'), 'restarts': PyInt(Int('restarts'))}
     st.ghost['needs'] = Const('needs', I2B); st.ghost['qpos'] = Function('qpos', IntSort(), IntSort()); st.ghost['seen_dead'] = K(IntSort(), False)
+    st.ghost['reloaded'] = Const('reloaded_from_previous_tick', I2B)          # whatever the de-duplication set held at the end of the previous tick
     st.pc += [NW >= 0, Distinct(self_a, args_a, wl_a)]; assume(st, OuterInv(st))
     needs0 = st.ghost['needs']
     exits = collections.Counter()
